@@ -99,8 +99,9 @@ class Ctx:
         self.thorough = tier == "thorough"
         self.repo = REPO
         self.rng = random.Random(seed * 1000003 + int(hashlib.sha256(pid.encode()).hexdigest()[:8], 16))
-        self.gen_dir = os.path.join(BUILD, "gen", pid)
-        self.work = os.path.join(BUILD, "run", pid)
+        # one directory per (property, tier): a quick and a thorough run of the same property may overlap in time
+        self.gen_dir = os.path.join(BUILD, "gen", "%s.%s" % (pid, tier))
+        self.work = os.path.join(BUILD, "run", "%s.%s" % (pid, tier))
         self.t0 = time.time()
         self.log_lines = []
 
@@ -198,7 +199,7 @@ def run_proofs(ctx, files, props_files):
             continue
         ok, out, secs = coqrun.coqc(dst, gen_dir=ctx.gen_dir, timeout=900, check=False)
         pr.secs += secs
-        pr.cmds.append("coqc -q -R coq DV -R build/gen/%s G %s" % (ctx.pid, base))
+        pr.cmds.append("coqc -q -R coq DV -R build/gen/%s.%s G %s" % (ctx.pid, ctx.tier, base))
         if ok:
             closed, axioms = parse_assumptions(out)
             pr.closed += closed
